@@ -36,7 +36,7 @@ theorem mem_leafFilter (pm : List Path) (p : Path) :
   simp [IsLeaf, List.mem_filter, List.mem_flatMap, mem_dottedPrefixes]
 
 theorem isLeafB_iff (pm : List Path) (p : Path) : isLeafB pm p = true ↔ IsLeaf pm p := by
-  simp [isLeafB, IsLeaf, isParentOf, List.any_eq_true]
+  simp [isLeafB, IsLeaf, isParentOf]
 
 /-- the repaired filter and the oracle's filter select the same sub-list -/
 theorem leafFilter_eq (pm : List Path) :
